@@ -354,13 +354,15 @@ def find_urls(data: bytes) -> list[Node]:
                 group = group[:close]
         if not is_url(group):
             continue
+        value, obfuscation = normalize_percent_encoding(group)
         out.append(
             Node(
                 URL_TYPE,
-                *normalize_percent_encoding(group),
+                value,
+                obfuscation,
                 start,
                 end,
-                children=parse_url(group),
+                children=parse_url(value),  # parts must index into the node's (normalized) value
             )
         )
     return out
